@@ -389,6 +389,17 @@ func (i *Inst) runConnect(s *OiScript, tw *TraceWriter, rng *rand.Rand, store, u
 		param = []string{qtok([]byte(KeyQuery), QueryIssuer, entry(0), -600)}
 		qOk, qSub = false, cfg.Hosts[0]
 		paramSym = [][]string{{"qtok"}}
+	case "qtok-ageing":
+		// a validly signed query token that expired 48 s ago is presented (whatever the answer: verifiers allow some clock
+		// skew), and the SAME token again 15 s later, when it expired more than a minute ago: the answer to the second
+		// presentation is that of an expired token (it depends on the token and the clock, not on the first answer)
+		param = []string{qtok([]byte(KeyQuery), QueryIssuer, entry(0), -48)}
+		if s.Session == "authed" {
+			b.Get(i.BaseURL() + "/connect?host=" + url.QueryEscape(param[0]))
+			time.Sleep(15 * time.Second)
+		}
+		qOk, qSub = false, cfg.Hosts[0]
+		paramSym = [][]string{{"qtok"}}
 	case "qtok-wrongiss":
 		param = []string{qtok([]byte(KeyQuery), "someone-else", entry(0), 300)}
 		qOk, qSub = false, cfg.Hosts[0]
